@@ -241,12 +241,11 @@ with parse_unary (fuel : nat) : prog expr :=
   | O => Fail EFuel
   | S f =>
       t0 <- scan_iw fuel ;;
-      match ti_tok t0 with
-      | LPAREN =>
+      if is_tok t0 LPAREN then
           e <- parse_expr f ;;
           expect fuel RPAREN ;;;
           Ret (ParenExpr e)
-      | _ =>
+      else
           unscan_p ;;;
           t <- scan_iw fuel ;;
           match ti_tok t with
@@ -325,7 +324,6 @@ with parse_unary (fuel : nat) : prog expr :=
               end
           | _ => fail_at t
           end
-      end
   end
 with parse_call (fuel : nat) (name : text) : prog expr :=
   match fuel with
